@@ -210,3 +210,99 @@ def bulk_unit():
 
 
 UNITS.append(bulk_unit())
+
+
+# ------------------------------------------------------------------------------------------------ _ImmutableTaskList.__call__ (the query itself)
+LTq = LIST(T)
+memq = Function('memq', LTq.z, T.z, BoolSort()); idxq = Function('idxq', LTq.z, T.z, IntSort())
+every_filter_holds = Function('every_filter_holds', LS.z, LV.z, T.z, BoolSort())
+keypred = Function('key_predicate', T.z, BoolSort())          # the callable passed as `key`, applied to a task (assumed pure)
+KW = REF('KwDict'); KEYF = S('KeyArg', DeclareSort('KeyArg')); key_none = Const('key_is_None', KEYF.z); is_callable = Function('is_callable', KEYF.z, BoolSort())
+_x = Const('_x', T.z); _y = Const('_y', T.z)
+
+
+def filtered(R, L, P):
+    """assumed semantics of `[t for t in L if P(t)]` (T1): the elements of L that satisfy P, in the order of L (duplicates of L kept - stated through positions)"""
+    j = Int('j'); k = Int('k'); pos = Function(f'pos!{fresh_id()}', IntSort(), IntSort())        # pos(j): position in L of the j-th element of R (strictly increasing)
+    return And(LTq.len(R) >= 0,
+               ForAll([j], Implies(And(0 <= j, j < LTq.len(R)), And(0 <= pos(j), pos(j) < LTq.len(L), LTq.at(R, j) == LTq.at(L, pos(j)), P(LTq.at(L, pos(j))))), patterns=[LTq.at(R, j)]),
+               ForAll([j, k], Implies(And(0 <= j, j < k, k < LTq.len(R)), pos(j) < pos(k)), patterns=[MultiPattern(pos(j), pos(k))]),
+               ForAll([k], Implies(And(0 <= k, k < LTq.len(L), P(LTq.at(L, k))), Exists([j], And(0 <= j, j < LTq.len(R), pos(j) == k))), patterns=[LTq.at(L, k)]))
+
+
+class CallPlugin(QueryPlugin):
+    def __init__(self, keys, vals):
+        QueryPlugin.__init__(self); self.keys, self.vals = keys, vals; self.filters = []
+
+    def matches(self, t):
+        return every_filter_holds(self.keys, self.vals, t)
+
+    def definition(self):
+        """every_filter_holds(keys, vals, t) is DEFINED as: for every keyword j, holds(t, key_j, value_j) - what the unit of `search` proves its result to be"""
+        j = Int('j')
+        return ForAll([_x], every_filter_holds(self.keys, self.vals, _x) == ForAll([j], Implies(And(0 <= j, j < LS.len(self.keys)), Hf(_x, LS.at(self.keys, j), LV.at(self.vals, j)))),
+                      patterns=[every_filter_holds(self.keys, self.vals, _x)])
+
+    def ev_ListComp(self, eng, e, st):
+        g = e.generators[0]
+        src = ast.unparse(g.iter)
+        if src not in ('self', 'self._list') or not (isinstance(e.elt, ast.Name) and e.elt.id == g.target.id) or len(g.ifs) > 1: raise Unsupported('comprehension form')
+        L = Select(eng.field(st, '_ImmutableTaskList', '_list'), st.env['self'].e)
+        R = fresh('selected', LTq)
+        if not g.ifs:
+            st.assume(R == L); kind = 'all'
+        else:
+            c = ast.unparse(g.ifs[0]).replace(' ', '')
+            if c == f'key({g.target.id})': P = lambda t: keypred(t); kind = 'key'
+            elif c == f'search({g.target.id},**kwargs)': P = self.matches; kind = 'kwargs'
+            else: raise Unsupported('comprehension condition ' + c)
+            st.assume(filtered(R, L, P))
+        st.ghost['selection'] = (kind, R)
+        return [(st, V(R, LTq))]
+
+    def call(self, eng, e, st):
+        f = e.func
+        if isinstance(f, ast.Name) and f.id == 'callable' and len(e.args) == 1:
+            s, v = eng.ev1(e.args[0], st); return [(s, V(is_callable(v.e), BOOL))]
+        if isinstance(f, ast.Name) and f.id == 'type': return [(st, V(fresh('typename', STR), STR))]
+        if isinstance(f, ast.Name) and f.id == '_ImmutableTaskList' and len(e.args) == 1:
+            s, v = eng.ev1(e.args[0], st)
+            r = fresh('result', TL); s.assume(And(r != TL.null, r != s.env['self'].e))
+            eng.write(s, '_ImmutableTaskList._list', Store(eng.field(s, '_ImmutableTaskList', '_list'), r, v.e))
+            return [(s, V(r, TL))]
+        return QueryPlugin.call(self, eng, e, st)
+
+    def cmp(self, eng, st, k, l, r, line):
+        if l.s == KEYF and r.s == NONE and k in ('Is', 'IsNot'): return (l.e == key_none) if k == 'Is' else (l.e != key_none)
+        if l.s == KW and r.s == NONE and k in ('Is', 'IsNot'): return (l.e == KW.null) if k == 'Is' else (l.e != KW.null)
+        return QueryPlugin.cmp(self, eng, st, k, l, r, line)
+
+
+def call_unit():
+    def build():
+        keys = Const('kw_keys', LS.z); vals = Const('kw_vals', LV.z)
+        plug = CallPlugin(keys, vals)
+        lst = lambda c, which='cur': Select(c.fld('_ImmutableTaskList', '_list', which), c['self'])
+        res = lambda c: Select(c.fld('_ImmutableTaskList', '_list'), c.result.e)
+
+        def sel(c, kind):
+            R = res(c); L = lst(c, 'pre'); j = Int('j')
+            P = {'key': lambda t: keypred(t), 'kwargs': plug.matches}[kind]
+            # the result, read in the property's words: exactly the listed tasks that satisfy the filter, in list order
+            return And(c.result.e != TL.null,
+                       ForAll([j], Implies(And(0 <= j, j < LTq.len(R)), Exists([Int('k')], And(0 <= Int('k'), Int('k') < LTq.len(L), LTq.at(L, Int('k')) == LTq.at(R, j), P(LTq.at(R, j))))), patterns=[LTq.at(R, j)]),
+                       ForAll([j], Implies(And(0 <= j, j < LTq.len(L), P(LTq.at(L, j))), Exists([Int('k')], And(0 <= Int('k'), Int('k') < LTq.len(R), LTq.at(R, Int('k')) == LTq.at(L, j)))), patterns=[LTq.at(L, j)]))
+        fc = {'sig': {'self': TL, 'key': KEYF, 'kwargs': KW, '_kw_keys': LS, '_kw_vals': LV},
+              'requires': [('list-and-keywords', lambda c: And(c['self'] != TL.null, c['kwargs'] != KW.null, c['_kw_keys'] == keys, c['_kw_vals'] == vals, LS.len(keys) == LV.len(vals), LS.len(keys) >= 0, LTq.len(lst(c)) >= 0))],
+              'raises': {'RuntimeError': [('C18/only-a-key-that-is-neither-None-nor-callable-is-refused', lambda c: And(c['key'] != key_none, Not(is_callable(c['key'])))),
+                                          ('C18/nothing-changed', lambda c: lst(c) == lst(c, 'pre'))]},
+              'ensures': [('C18/a-callable-key-is-applied-as-a-predicate', lambda c: Implies(c['key'] != key_none, And(is_callable(c['key']), sel(c, 'key')))),
+                          ('C18/keyword-filters-select-exactly-the-tasks-for-which-every-filter-holds', lambda c: Implies(c['key'] == key_none, sel(c, 'kwargs'))),
+                          ('C18/the-queried-list-is-not-changed', lambda c: lst(c) == lst(c, 'pre'))]}
+
+        def c_search(eng, st, recv, args, kws, node): return [(st, V(plug.matches(args[0].e), BOOL))]
+        return Engine(F, '_ImmutableTaskList.__call__', {'fn:search': c_search}, {'_ImmutableTaskList': {'_list': LTq}}, fc, plugins=[plug]), [plug.definition()]
+    return Unit('_ImmutableTaskList.__call__', F, build, ['C18'], timeout_ms=15000)
+
+
+UNITS.append(call_unit())
